@@ -4,6 +4,7 @@
 -/
 import Torf.Generated.Kernels
 import Torf.Model.Generate
+import Torf.Model.Stream
 namespace Torf.C01
 
 theorem C01_kernel_pieces (size L : Nat) (hs : 0 < size) (hL : 0 < L) :
@@ -12,5 +13,35 @@ theorem C01_kernel_pieces (size L : Nat) (hs : 0 < size) (hL : 0 < L) :
   simp only [hs, hL, and_self, if_true, gt_iff_lt]
   have e : ((size + L - 1 : Nat) : Int) = (size : Int) + L - 1 := by omega
   rw [Int.natCast_ediv, e]
+
+/-- `_iter_from_file_handle`: the piece carried over from the previous file is filled with exactly the number of bytes
+    the code asks `read()` for (`piece_size - len(piece)`), and what follows is read from there on -/
+theorem C01_kernel_carry_fill {α : Type} (L : Nat) (prepend content : List α) :
+    Torf.Stream.iterFromHandle L prepend content =
+      (let r := Torf.Stream.prependLoop L (prepend.length + 1) prepend
+       if r.2.isEmpty then r.1 ++ Torf.Stream.readLoop L (content.length + 1) content
+       else
+         let want := (Torf.Generated.carryFillSize L r.2.length).toNat
+         r.1 ++ (r.2 ++ content.take want) ::
+           Torf.Stream.readLoop L ((content.drop want).length + 1) (content.drop want)) := by
+  unfold Torf.Stream.iterFromHandle Torf.Generated.carryFillSize
+  simp only
+  have h : ∀ n : Nat, (((L : Int) - (n : Int))).toNat = L - n := by intro n; omega
+  rw [h]
+
+/-- … and a slice of the carried-over bytes is yielded as a piece of its own exactly when the code's test
+    (`len(piece) == piece_size`) holds -/
+theorem C01_kernel_carry_complete {α : Type} (L fuel : Nat) (pre : List α) (hne : pre.isEmpty = false) :
+    Torf.Stream.prependLoop L (fuel + 1) pre =
+      if Torf.Generated.carryComplete (pre.take L).length L then
+        ((pre.take L) :: (Torf.Stream.prependLoop L fuel (pre.drop L)).1, (Torf.Stream.prependLoop L fuel (pre.drop L)).2)
+      else ([], pre.take L) := by
+  unfold Torf.Generated.carryComplete
+  simp only [Torf.Stream.prependLoop, hne, Bool.false_eq_true, if_false]
+  by_cases h : (pre.take L).length = L
+  · have h' : (((pre.take L).length : Nat) : Int) = (L : Int) := by omega
+    rw [if_pos h, if_pos (by simpa using h')]
+  · have h' : ¬ (((pre.take L).length : Nat) : Int) = (L : Int) := by omega
+    rw [if_neg h, if_neg (by simpa using h')]
 
 end Torf.C01
